@@ -1,10 +1,12 @@
 CONSTANTS
   Dev = {}
+  MaxRuns = 1
+  EntQKinds = {"positive", "nxdomain", "ds"}
   Budget = 2
   Shapes = {"secure3"}
   Denials = {"nsec"}
   QKinds = {"positive"}
-  AdvActs = {"DropRrsig", "DropRrset", "ReplaceRdata", "WrongSigner", "Expire", "NotYetValid", "ReplayAncestor", "ForgeSigned", "AddBadSig", "CorruptKey", "CorruptDs", "StripProof", "ForgeNsecRange", "SwapProof", "BadNsec3Label", "BadNsec3LabelSigned", "ZeroCounts", "ZeroTtl", "Inject", "CnameLoop"}
+  AdvActs = {"DropRrsig", "DropRrset", "ReplaceRdata", "WrongSigner", "Expire", "NotYetValid", "ReplayAncestor", "AddCollidingKey", "AddExtraDs", "CorruptSigOctets", "HideCe", "ForgeSigned", "AddBadSig", "CorruptKey", "CorruptDs", "StripProof", "ForgeNsecRange", "SwapProof", "BadNsec3Label", "BadNsec3LabelSigned", "ZeroCounts", "ZeroTtl", "Inject", "CnameLoop"}
 SPECIFICATION TSpec
 INVARIANT TraceSound
 POSTCONDITION Accepted
